@@ -773,6 +773,11 @@ def body(ctx):
         o.after_call(status)
         case = {"class": o.cls, "ctor": o.ctor, "params": o.P(), "op": op, "inputs": [float(v) for v in arr],
                 "censor": censor, "note": note}
+        if op == "cens" and status == "ok":
+            # forward(censor), to tell (afterwards) which elements backward_censored evaluated inside the image
+            stc, tc = o.call("fwd", [censor])
+            o.after_call(stc)
+            case["tcensor"] = float(tc[0]) if stc == "ok" else NAN
         if status == "err" and all(v is not None for v in o.requested.values()):
             ctx.finding(f"{o.cls}/{op}/raises_on_valid_setting",
                         "a call on a transform whose parameters and constants were all set raises " + str(payload),
@@ -1363,7 +1368,11 @@ def body(ctx):
         except Exception as e:  # noqa
             ctx.finding(f"get_transform/{cls}/raises", "get_transform(name) with a catalogue name raises " + type(e).__name__,
                         {"class": cls})
+    def unordered(rep):
+        return " ".join("[" + ",".join(sorted(C.parse_list(t))) + "]" if t.startswith("[") else t for t in rep.split())
+
     for rq, im, rp in zip(route_reqs, route_impl, ctx.lean.ask(route_reqs)):
+        im, rp = unordered(im), unordered(rp)
         ctx.count(("route", rq), rp not in ("ignored",) and not rp.startswith("err"), "get_transform/" + rq.split()[0])
         if im != rp:
             ctx.disagree("get_transform: implementation and model differ (" + rq + ")", {"request": rq, "impl": im, "model": rp})
@@ -1406,7 +1415,14 @@ def body(ctx):
         for k, (a, m, e) in enumerate(zip(iv, mv, me)):
             stats["elements"] += 1
             nontriv = fin(a)
-            dom = in_domain(cls, op, case["params"], ins[k]) if ins is not None else True
+            if op == "cens" and ins is not None and "tcensor" in case:
+                tcv = case["tcensor"]
+                yk = ins[k] if (tcv != tcv or ins[k] != ins[k]) else max(ins[k], tcv)
+                dom = in_domain(cls, "bwd", case["params"], yk)
+                if dom and (a != a) != (m != m) and (cls, "bwd") not in GUARDED:
+                    dom = None
+            else:
+                dom = in_domain(cls, op, case["params"], ins[k]) if ins is not None else True
             if dom is False or (dom is None and (a != a) != (m != m)):
                 stats["outside_domain_not_compared"] += 1
                 ctx.count((req, k), False, f"{cls}/{op}/outside-domain")
